@@ -14,12 +14,20 @@ package c05
 //      after the other – at quiescence the result does not depend on the schedule), then with
 //      racing port Closes as well; finally every process exits: all maps empty, every endpoint
 //      ever returned is closed.
+//  (d) concurrent FIRST Opens of one (port, process) from 2–3 goroutines, many rounds; after exit
+//      and port close the goroutine profile must show no reader / writer pump above the baseline.
+// In (a) the yield site 13 (lookup missed, before the write lock) lets two openers sit in the
+// same window; whenever every thread is idle the number of running pump goroutines is compared
+// with the model's number of created-and-not-closed endpoints (line `pumps`).
 
 import (
 	"fmt"
+	"runtime"
 	"strconv"
 	"strings"
 	"sync"
+	"sync/atomic"
+	"time"
 
 	"github.com/siyul-park/uniflow/pkg/packet"
 	"github.com/siyul-park/uniflow/pkg/port"
@@ -80,6 +88,51 @@ func epDone(e any) bool {
 	return true
 }
 
+// pumpGoroutines counts the goroutines running the pump started by packet.NewReader / NewWriter:
+// one per endpoint that was created and not closed.
+func pumpGoroutines() int {
+	buf := make([]byte, 1<<18)
+	for {
+		n := runtime.Stack(buf, true)
+		if n < len(buf) {
+			buf = buf[:n]
+			break
+		}
+		buf = make([]byte, 2*len(buf))
+	}
+	n := 0
+	for _, g := range strings.Split(string(buf), "\n\n") {
+		if strings.Contains(g, "pkg/packet.NewReader.func1") || strings.Contains(g, "pkg/packet.NewWriter.func1") {
+			n++
+		}
+	}
+	return n
+}
+
+// pumpLeaks counts detected leaks; once a few are reported the settle loops stop being patient,
+// so that a tree that leaks on every case still finishes quickly.
+var pumpLeaks int
+
+func pumpPatience(d time.Duration) time.Duration {
+	if pumpLeaks >= 3 {
+		return 10 * time.Millisecond
+	}
+	return d
+}
+
+// settlePumps polls until the number of pump goroutines equals want (a closed endpoint's pump
+// ends asynchronously) and returns the last count seen; patience bounds the wait.
+func settlePumps(want int, patience time.Duration) int {
+	deadline := time.Now().Add(patience)
+	for {
+		n := pumpGoroutines()
+		if n == want || time.Now().After(deadline) {
+			return n
+		}
+		time.Sleep(time.Millisecond)
+	}
+}
+
 // ---------------------------------------------------------------- (a) step-controlled
 
 type portCase struct {
@@ -94,6 +147,7 @@ type portCase struct {
 	fails *[]lib.OracleFail
 	wedge bool
 	exits []bool
+	base  int // pump goroutines before the case created anything
 }
 
 func newPortCase(c *lib.Ctx, sc *lib.Script, fails *[]lib.OracleFail, nthreads, nports, nprocs int) *portCase {
@@ -112,7 +166,24 @@ func newPortCase(c *lib.Ctx, sc *lib.Script, fails *[]lib.OracleFail, nthreads, 
 		s.procs = append(s.procs, process.New())
 	}
 	s.exits = make([]bool, nprocs)
+	s.base = settlePumps(0, pumpPatience(200*time.Millisecond))
 	return s
+}
+
+// pumps compares, at a point where every thread is idle, the number of running pump goroutines
+// (endpoints actually created and not closed) with what the maps account for; the model answers
+// the same line with its count of created-and-not-closed endpoints.
+func (s *portCase) pumps() {
+	want := s.base
+	for _, p := range s.ports {
+		want += p.size()
+	}
+	got := settlePumps(want, pumpPatience(5*time.Second))
+	s.emit("pumps", fmt.Sprintf("open=%d", got-s.base))
+	if got != want {
+		pumpLeaks++
+		s.fail("pump-leak", fmt.Sprintf("every operation has returned and the port maps hold %d endpoints, but %d reader/writer pump goroutines are running above the baseline: an endpoint was created and dropped without Close", want-s.base, got-s.base))
+	}
 }
 
 func (s *portCase) emit(line, out string) {
@@ -253,6 +324,9 @@ func (s *portCase) drain(rng *lib.RNG) {
 
 func (s *portCase) finish(rng *lib.RNG) {
 	s.drain(rng)
+	if !s.wedge {
+		s.pumps()
+	}
 	for p := range s.procs {
 		if s.wedge {
 			return
@@ -275,6 +349,7 @@ func (s *portCase) finish(rng *lib.RNG) {
 			s.fail("endpoint-open", fmt.Sprintf("every process exited, but endpoint #%d returned by Open was never closed", i))
 		}
 	}
+	s.pumps()
 }
 
 func runPortStepCase(c *lib.Ctx, rng *lib.RNG, sc *lib.Script, fails *[]lib.OracleFail) (string, bool) {
@@ -454,6 +529,106 @@ func runPortFreeCase(c *lib.Ctx, rng *lib.RNG, sc *lib.Script, fails *[]lib.Orac
 	return strings.Join(trace, ";")
 }
 
+// ---------------------------------------------------------------- (d) concurrent first Opens
+
+// runPortConcurrentOpens: many rounds in which 2–3 goroutines open the same in-port for the same
+// process for the first time at the same moment – through two OutPorts linked to one InPort (two
+// branches of a workflow merging into one node), through plain in.Open(proc), or both. Exactly one
+// endpoint may be created per (port, process); after the process has exited and the ports are
+// closed no reader / writer pump goroutine may be left (goroutine profile, after a settle loop).
+func runPortConcurrentOpens(c *lib.Ctx, rng *lib.RNG, fails *[]lib.OracleFail) {
+	rounds := c.Scale(4000, 40000)
+	const batch = 250
+	base := settlePumps(0, pumpPatience(200*time.Millisecond))
+	reported := 0
+	fail := func(class, what, replay string) {
+		if reported < 3 {
+			*fails = append(*fails, lib.OracleFail{Class: class, What: what, Replay: replay})
+		}
+		reported++
+	}
+	kinds := []string{"two OutPorts linked to one InPort, out.Open(proc) x2", "plain in.Open(proc) x2..3", "out.Open(proc) and in.Open(proc)"}
+	var hist [3]int
+	for r := 0; r < rounds; r++ {
+		in := port.NewIn()
+		outs := []*port.OutPort{port.NewOut(), port.NewOut()}
+		outs[0].Link(in)
+		outs[1].Link(in)
+		proc := process.New()
+		kind := rng.Intn(3)
+		k := 2
+		if kind == 1 {
+			k = rng.Range(2, 3)
+		}
+		hist[kind]++
+		readers := make([]*packet.Reader, k)
+		var ready atomic.Int32
+		var gate atomic.Bool
+		var wg sync.WaitGroup
+		for i := 0; i < k; i++ {
+			i := i
+			wg.Add(1)
+			go func() {
+				defer wg.Done()
+				ready.Add(1)
+				for !gate.Load() {
+					runtime.Gosched()
+				}
+				switch {
+				case kind == 0, kind == 2 && i == 0:
+					outs[i].Open(proc)
+				default:
+					readers[i] = in.Open(proc)
+				}
+			}()
+		}
+		for int(ready.Load()) < k {
+			runtime.Gosched()
+		}
+		gate.Store(true)
+		wg.Wait()
+		where := fmt.Sprintf("round %d (%s, %d goroutines)", r, kinds[kind], k)
+		if n := in.VerifReaders(); n != 1 {
+			fail("port-residue", fmt.Sprintf("%s: the in-port maps %d readers for one running process", where, n), where)
+		}
+		var first *packet.Reader
+		for _, rd := range readers {
+			if rd == nil {
+				continue
+			}
+			if rd == packet.ClosedReader || rd.VerifC05Done() {
+				fail("endpoint-open", where+": concurrent Open of a running process returned a closed reader", where)
+			}
+			if first == nil {
+				first = rd
+			} else if rd != first {
+				fail("port-residue", where+": concurrent Opens of one port and process returned different readers", where)
+			}
+		}
+		proc.Exit(nil)
+		if a, b, d := in.VerifReaders(), outs[0].VerifWriters(), outs[1].VerifWriters(); a+b+d != 0 {
+			fail("port-residue", fmt.Sprintf("%s: after Exit the maps hold %d/%d/%d entries", where, a, b, d), where)
+		}
+		outs[0].Close()
+		outs[1].Close()
+		in.Close()
+		if (r+1)%batch == 0 || r+1 == rounds {
+			got := settlePumps(base, pumpPatience(5*time.Second))
+			c.Count(fmt.Sprintf("port-concurrent-open:batch-%d", r/batch))
+			if got != base {
+				pumpLeaks++
+				fail("pump-leak", fmt.Sprintf("concurrent first Opens, rounds %d..%d: every process exited and every port was closed, but %d reader/writer pump goroutines (pkg/packet.NewReader/NewWriter) are running above the baseline: an endpoint was created for a process and dropped without Close",
+					r+1-batch, r, got-base),
+					fmt.Sprintf("seed-derived rounds %d..%d of runPortConcurrentOpens; per round: in := port.NewIn(); out1.Link(in); out2.Link(in); 2-3 goroutines behind a barrier call out_i.Open(proc) / in.Open(proc); proc.Exit(nil); close ports; count goroutines with a pkg/packet.NewReader.func1 / NewWriter.func1 frame.\nDeterministic form: corpus/C05/port-03-two-openers.ops", r+1-batch, r))
+				base = got
+			}
+		}
+	}
+	for i, n := range hist {
+		c.Hist[fmt.Sprintf("port-concurrent-open-kind-%d", i)] += n
+	}
+}
+
 // ---------------------------------------------------------------- (b) the window
 
 func portWindow(fails *[]lib.OracleFail) {
@@ -467,7 +642,13 @@ func portWindow(fails *[]lib.OracleFail) {
 		proc := process.New()
 		at := make(chan int)
 		goOn := make(chan struct{})
-		port.VerifSetYield(func(site int) { at <- site; <-goOn })
+		port.VerifSetYield(func(site int) {
+			if site == 13 {
+				return // this scenario parks only after the status check and before AddExitHook
+			}
+			at <- site
+			<-goOn
+		})
 		type res struct {
 			r string
 			e any
@@ -542,6 +723,9 @@ func runPorts(c *lib.Ctx, rng *lib.RNG, fails *[]lib.OracleFail) []lib.Mismatch 
 		if key == "" {
 			break
 		}
+	}
+	if !wedged {
+		runPortConcurrentOpens(c, rng.Fork(), fails)
 	}
 	ms, err := c.RunModel("c05p", sc)
 	if err != nil {
